@@ -238,8 +238,11 @@ func c20ExecSend(c *vx.Ctx, w *vx.W, cs c20Case) {
 			ran++
 		}
 	done:
+		c.AddTransitions(int64(ran))
+		c.AddTraces(1)
 		if ran == len(cs.Ops) {
 			w.Nontrivial()
+			c.AddStates(1) // stateless search: one explored history
 			if !lossy {
 				// Everything written is flushed; without loss the conn must use the limits it was given
 				// (a stale MAX_* must not have lowered them).
@@ -466,8 +469,11 @@ func c20ExecRecv(c *vx.Ctx, w *vx.W, cs c20Case) {
 			ran++
 		}
 	done:
+		c.AddTransitions(int64(ran))
+		c.AddTraces(1)
 		if ran == len(cs.Ops) {
 			w.Nontrivial()
+			c.AddStates(1) // stateless search: one explored history
 		} else {
 			w.Outcome("case-truncated")
 		}
@@ -555,7 +561,7 @@ func (g c20RecvGen) Apply(op string) (qpeerGen, bool) {
 
 func TestVerif_C20(t *testing.T) {
 	vx.Run(t, "C20", func(c *vx.Ctx) {
-		c.Rule("q-peer, each case on a fresh handshaken Conn in its own synctest bubble, every enabled operation sequence up to the depth of the part, shortest first. send: two local streams, peer stream window 150 / connection window 200; Write(100|5000)/Flush per stream, peer MAX_DATA and MAX_STREAM_DATA with values {largest so far -50, +0, +120} in any order, ack-all / all-outstanding-lost / PTO; every STREAM frame sent (retransmissions included) is checked against the largest limits received so far. recv: two peer streams, own stream window 100 / connection window 150; peer STREAM (and RESET_STREAM) ending at {limit-1, limit, limit+1} of the advertised stream limit and of the advertised connection limit, +40 increments, Read(1000), Read(10), CloseRead, ack, loss; reference model of the limits as advertised in the frames the conn sent. Non-trivial = whole sequence executed (or ended in the expected FLOW_CONTROL_ERROR).")
+		c.Rule("q-peer, each case on a fresh handshaken Conn in its own synctest bubble, every enabled operation sequence up to the depth of the part, shortest first. send: two local streams, peer stream window 150 / connection window 200; Write(100|5000)/Flush per stream, peer MAX_DATA and MAX_STREAM_DATA with values {largest so far -50, +0, +120} in any order, ack-all / all-outstanding-lost / PTO; every STREAM frame sent (retransmissions included) is checked against the largest limits received so far. recv: two peer streams, own stream window 100 / connection window 150; peer STREAM (and RESET_STREAM) ending at {limit-1, limit, limit+1} of the advertised stream limit and of the advertised connection limit, +40 increments, Read(1000), Read(10), CloseRead, ack, loss; reference model of the limits as advertised in the frames the conn sent. Non-trivial = whole sequence executed (or ended in the expected FLOW_CONTROL_ERROR). Counters: states = histories explored completely (stateless search, no deduplication), transitions = operations applied to the real conn and checked, traces = cases executed.")
 		c.Assume("half (a) of the design (two real endpoints with a qlog monitor under packet loss) is not part of this check; loss here is 'every outstanding packet lost' or a PTO, driven by the scripted peer")
 		c.Assume("the clause 'sends-less-than-limits-allow' (a stale MAX_* must not lower what the conn sends) is evaluated only for histories without loss/PTO, after flushing everything and 20 ms of fake time")
 		c.Assume("the scripted peer is taken to know every MAX_DATA / MAX_STREAM_DATA frame the conn has put on the wire, even in packets it later declares lost")
